@@ -1,18 +1,23 @@
-/* C16 driver: REAL threads (one instance per thread, created with <module>NewChild, sharing the parent's
- * shared memory) execute per-thread programs of atomic operations through the functions w2c2 generated
- * for module "at".  Every operation is logged with tickets taken from one global atomic counter before
- * and after the call, so that real-time order is known.
- * argv[1]: program file, lines "t op addr v e" (op: ld st add xchg cas); argv[2]: number of threads.
- * mode "stress" (argv[1] == "stress"): thread 0 adds 1 in a loop, thread 1 stores one token once; prints
- * whether the store survived. */
+/* C16 driver: REAL threads (one instance per thread, created with <module>NewChild, sharing the parent's shared memory)
+ * execute atomic operations through the functions w2c2 generated for module "at" (uniform signature
+ * (addr, v, e) -> old for ld/st/add/xchg/cas x seven width flavours).
+ *   <program file> <threads>      : per-thread programs, lines "t op addr v e"; every operation is logged with tickets
+ *                                   from one global atomic counter taken before and after the call
+ *   hammer <threads> <n>          : per flavour, all threads exchange unique tokens (xchg) resp. add 1 (add) n times on one
+ *                                   cell; prints the conservation counts that atomicity implies
+ *   stress <2> <rounds>           : one thread adds in a loop, the other stores once: the completed store must survive */
 #include <stdio.h>
 #include <stdlib.h>
 #include <string.h>
 #include <pthread.h>
 #include "at.h"
 void trap(Trap t) { fprintf(stderr, "trap %d\n", (int)t); abort(); }
+typedef U64 (*fn)(atInstance*, U32, U64, U64);
+#define F5(tag) {"ld" #tag, at_ld##tag}, {"st" #tag, at_st##tag}, {"add" #tag, at_add##tag}, {"xchg" #tag, at_xchg##tag}, {"cas" #tag, at_cas##tag}
+static struct { const char* name; fn f; } table[] = { F5(8), F5(16), F5(32), F5(8l), F5(16l), F5(32l), F5(64), {NULL, NULL} };
+static fn lookup(const char* n) { int i; for (i = 0; table[i].name; i++) if (!strcmp(table[i].name, n)) return table[i].f; fprintf(stderr, "no op %s\n", n); abort(); }
 #define MAXOPS 4096
-typedef struct { int t; char op[8]; U32 a, v, e, old; long tb, te; } Op;
+typedef struct { int t; char op[12]; fn f; U32 a; U64 v, e, old; long tb, te; } Op;
 static Op ops[MAXOPS]; static int nops;
 static long ticket;
 static atInstance root; static atInstance* inst[16];
@@ -24,18 +29,21 @@ static void* worker(void* arg) {
         Op* o = &ops[i];
         if (o->t != me) continue;
         o->tb = __atomic_fetch_add(&ticket, 1, __ATOMIC_SEQ_CST);
-        if (!strcmp(o->op, "ld")) o->old = at_ld(inst[me], o->a);
-        else if (!strcmp(o->op, "st")) { at_st(inst[me], o->a, o->v); o->old = 0; }
-        else if (!strcmp(o->op, "add")) o->old = at_add(inst[me], o->a, o->v);
-        else if (!strcmp(o->op, "xchg")) o->old = at_xchg(inst[me], o->a, o->v);
-        else if (!strcmp(o->op, "cas")) o->old = at_cas(inst[me], o->a, o->e, o->v);
+        o->old = o->f(inst[me], o->a, o->v, o->e);
         o->te = __atomic_fetch_add(&ticket, 1, __ATOMIC_SEQ_CST);
     }
     return NULL;
 }
+/* hammer */
+static fn hf; static U32 haddr; static long hn; static int hthreads; static U64 hmask; static U64* hret[16];
+static void* hammer_xchg(void* arg) { long me = (long)arg, i; pthread_barrier_wait(&bar);
+    for (i = 0; i < hn; i++) hret[me][i] = hf(inst[me], haddr, (U64)((me * hn + i + 1) & hmask), 0); return NULL; }
+static void* hammer_add(void* arg) { long me = (long)arg, i; pthread_barrier_wait(&bar);
+    for (i = 0; i < hn; i++) hret[me][i] = hf(inst[me], haddr, 1, 0); return NULL; }
+static int cmp64(const void* a, const void* b) { U64 x = *(const U64*)a, y = *(const U64*)b; return x < y ? -1 : x > y; }
 static volatile int go;
-static void* adder(void* arg) { long n = (long)arg, i; while (!go) {} for (i = 0; i < n; i++) (void)at_add(inst[0], 64, 1); return NULL; }
-static void* storer(void* arg) { long spin = (long)arg, i; volatile long s = 0; while (!go) {} for (i = 0; i < spin; i++) s += i; at_st(inst[1], 64, 1u << 28); return NULL; }
+static void* adder(void* arg) { long n = (long)arg, i; while (!go) {} for (i = 0; i < n; i++) (void)at_add32(inst[0], 80, 1, 0); return NULL; }
+static void* storer(void* arg) { long spin = (long)arg, i; volatile long s = 0; while (!go) {} for (i = 0; i < spin; i++) s += i; at_st32(inst[1], 80, 1u << 28, 0); return NULL; }
 int main(int argc, char** argv) {
     int nt = argc > 2 ? atoi(argv[2]) : 2, i;
     pthread_t th[16];
@@ -44,29 +52,72 @@ int main(int argc, char** argv) {
     if (!strcmp(argv[1], "stress")) {
         int lost = 0, rounds = argc > 3 ? atoi(argv[3]) : 50, r;
         for (r = 0; r < rounds; r++) {
-            at_st(&root, 64, 0); go = 0;
+            at_st32(&root, 80, 0, 0); go = 0;
             pthread_create(&th[0], NULL, adder, (void*)200000L);
             pthread_create(&th[1], NULL, storer, (void*)(long)(1000 + 997 * r));
             go = 1;
             pthread_join(th[0], NULL); pthread_join(th[1], NULL);
-            if (at_ld(&root, 64) < (1u << 28)) lost++;          /* the completed store is gone */
+            if (at_ld32(&root, 80, 0, 0) < (1u << 28)) lost++;          /* the completed store is gone */
         }
         printf("{\"rounds\":%d,\"lost_stores\":%d}\n", rounds, lost);
+        return 0;
+    }
+    if (!strcmp(argv[1], "hammer")) {
+        static const char* tags[] = {"8", "16", "32", "8l", "16l", "32l", "64"}; static const int widths[] = {8, 16, 32, 8, 16, 32, 64};
+        static const U32 cells[] = {64, 72, 80, 64, 72, 80, 88};
+        int k, mode; long t;
+        hn = argc > 3 ? atol(argv[3]) : 20000; hthreads = nt;
+        for (t = 0; t < nt; t++) hret[t] = malloc(sizeof(U64) * (size_t)hn);
+        for (k = 0; k < 7; k++) for (mode = 0; mode < 2; mode++) {
+            char name[16]; U64 total = (U64)nt * (U64)hn, lost = 0, final; U64* all; U64 j, n = 0; int bad_final = 0;
+            snprintf(name, sizeof name, "%s%s", mode ? "add" : "xchg", tags[k]);
+            hf = lookup(name); haddr = cells[k]; hmask = widths[k] == 64 ? ~(U64)0 : (((U64)1 << widths[k]) - 1);
+            { char st[16]; snprintf(st, sizeof st, "st%s", tags[k]); lookup(st)(&root, haddr, 0, 0); }
+            pthread_barrier_init(&bar, NULL, (unsigned)nt);
+            for (t = 0; t < nt; t++) pthread_create(&th[t], NULL, mode ? hammer_add : hammer_xchg, (void*)t);
+            for (t = 0; t < nt; t++) pthread_join(th[t], NULL);
+            { char ld[16]; snprintf(ld, sizeof ld, "ld%s", tags[k]); final = lookup(ld)(&root, haddr, 0, 0); }
+            all = malloc(sizeof(U64) * (size_t)(total + 1));
+            for (t = 0; t < nt; t++) for (j = 0; j < (U64)hn; j++) all[n++] = hret[t][j];
+            all[n++] = final;
+            qsort(all, (size_t)n, sizeof(U64), cmp64);
+            if (mode) {
+                /* returned old values + final = {0, 1, ..., total} taken modulo 2^width, as a multiset */
+                U64* want = malloc(sizeof(U64) * (size_t)(total + 1));
+                for (j = 0; j <= total; j++) want[j] = j & hmask;
+                qsort(want, (size_t)(total + 1), sizeof(U64), cmp64);
+                for (j = 0; j <= total; j++) if (want[j] != all[j]) lost++;
+                bad_final = final != (total & hmask);
+                free(want);
+            } else {
+                /* returned old values + final = written tokens + initial 0, as a multiset */
+                U64* want = malloc(sizeof(U64) * (size_t)(total + 1));
+                for (j = 0; j < total; j++) want[j] = (j + 1) & hmask;
+                want[total] = 0;
+                qsort(want, (size_t)(total + 1), sizeof(U64), cmp64);
+                for (j = 0; j <= total; j++) if (want[j] != all[j]) lost++;
+                free(want);
+            }
+            printf("{\"op\":\"%s\",\"threads\":%d,\"per_thread\":%ld,\"lost\":%llu,\"bad_final\":%d}\n", name, nt, hn, (unsigned long long)lost, bad_final);
+            free(all);
+        }
         return 0;
     }
     {
         FILE* f = fopen(argv[1], "r"); char line[128];
         while (f && fgets(line, sizeof line, f) && nops < MAXOPS) {
-            Op* o = &ops[nops];
-            if (sscanf(line, "%d %7s %u %u %u", &o->t, o->op, &o->a, &o->v, &o->e) == 5) nops++;
+            Op* o = &ops[nops]; unsigned long long v, e;
+            if (sscanf(line, "%d %11s %u %llu %llu", &o->t, o->op, &o->a, &v, &e) == 5) { o->v = v; o->e = e; o->f = lookup(o->op); nops++; }
         }
     }
     pthread_barrier_init(&bar, NULL, (unsigned)nt);
     for (i = 0; i < nt; i++) pthread_create(&th[i], NULL, worker, (void*)(long)i);
     for (i = 0; i < nt; i++) pthread_join(th[i], NULL);
     for (i = 0; i < nops; i++)
-        printf("{\"t\":%d,\"op\":\"%s\",\"a\":%u,\"v\":%u,\"e\":%u,\"old\":%u,\"tb\":%ld,\"te\":%ld}\n",
-               ops[i].t, ops[i].op, ops[i].a, ops[i].v, ops[i].e, ops[i].old, ops[i].tb, ops[i].te);
-    printf("{\"op\":\"final\",\"m64\":%u,\"m128\":%u}\n", at_ld(&root, 64), at_ld(&root, 128));
+        printf("{\"t\":%d,\"op\":\"%s\",\"a\":%u,\"v\":%llu,\"e\":%llu,\"old\":%llu,\"tb\":%ld,\"te\":%ld}\n",
+               ops[i].t, ops[i].op, ops[i].a, (unsigned long long)(ops[i].v & 0x3FFFFFFF), (unsigned long long)(ops[i].e & 0x3FFFFFFF),
+               (unsigned long long)(ops[i].old & 0x3FFFFFFF), ops[i].tb, ops[i].te);
+    printf("{\"op\":\"final\",\"c8\":%llu,\"c16\":%llu,\"c32\":%llu,\"c64\":%llu}\n", (unsigned long long)at_ld8(&root, 64, 0, 0), (unsigned long long)at_ld16(&root, 72, 0, 0),
+           (unsigned long long)at_ld32(&root, 80, 0, 0), (unsigned long long)at_ld64(&root, 88, 0, 0));
     return 0;
 }
